@@ -16,7 +16,7 @@ import hmac as _hmac
 import z3
 
 from . import core
-from .core import Unsupported
+from .core import Unsupported, EngineAbort as EngineAbortTypes
 from .values import (SxInt, SxBool, SxBytes, SxStr, SxChar, is_sym, mkbool, z3bool, bytes_from_bv, _mkbytes,
                      concretize_small, sym_ite)
 from . import instrument
@@ -99,6 +99,9 @@ def uf_hash(name, outbytes, *args, real=None):
             for x, y in zip(r.bs, rv):
                 if isinstance(x, SxInt):
                     c.add(x.e == y)
+            return rv          # concrete in, concrete out; the UF is pinned to it at this point
+        except EngineAbortTypes:
+            raise
         except Exception:
             pass
     return r
@@ -303,6 +306,12 @@ except Exception:                                                # pragma: no co
     _ecdsa = None
 
 
+def _mraise(exc):
+    """an exception the *modelled library* raises (not an engine fault)"""
+    exc._sx_model = True
+    raise exc
+
+
 def _d256(d):
     """discrete log (int / SxInt in [0, n-1]) as BV256"""
     if isinstance(d, int):
@@ -393,6 +402,7 @@ def sec_of(d, encoding="compressed"):
         c = C()
         c.add(_DLOG(s.bv()) == dv)
         c.add(_VALID(s.bv()))
+        _tag_sec(s, d, dv, "compressed")
         return s
     y = bytes_from_bv(_Y(dv), 32)
     if encoding == "uncompressed":
@@ -407,7 +417,35 @@ def sec_of(d, encoding="compressed"):
         raise ValueError("unknown encoding %r" % (encoding,))
     xy = z3.Concat(_X(dv), _Y(dv))
     C().add(_DLOGU(xy) == dv, _VALIDU(xy))
+    _tag_sec(s, d, dv, encoding)
     return s
+
+
+def _tag_sec(s, d, dv, encoding):
+    """remember that these bytes are the encoding of the element with discrete log d, so that
+    decoding them again yields d directly (decode(encode(P)) = P) instead of going through DLOG"""
+    key = dv.get_id()
+    for idx, b in enumerate(s.bs):
+        if isinstance(b, SxInt):
+            b.org = ("sec", key, d, idx, len(s.bs), encoding)
+
+
+def _sec_provenance(b):
+    """d if b is, byte for byte, a SEC encoding produced by sec_of(d)"""
+    first = None
+    for idx, x in enumerate(b.bs):
+        if isinstance(x, int):
+            if idx == 0 and len(b.bs) == 65 and x == 4:
+                continue
+            return None
+        o = x.org
+        if not o or o[0] != "sec" or o[3] != idx or o[4] != len(b.bs):
+            return None
+        if first is None:
+            first = o
+        elif o[1] != first[1]:
+            return None
+    return first[2] if first else None
 
 
 class ModelVK:
@@ -456,7 +494,7 @@ def _sk_from_string(cls, string, curve=None, hashfunc=None):
     _check_curve(curve)
     b = _as_bytes(string)
     if len(b) != 32:
-        raise MalformedPointError("Invalid length of private key, received %d, expected 32" % len(b))
+        _mraise(MalformedPointError("Invalid length of private key, received %d, expected 32" % len(b)))
     k = instrument.sx_int_from_bytes(b, "big")
     _log("sk_from_string", b)
     return _sk_from_int(k, b)
@@ -464,7 +502,7 @@ def _sk_from_string(cls, string, curve=None, hashfunc=None):
 
 def _sk_from_int(k, b=None):
     if not (bool(k >= 1) and bool(k < N)):
-        raise MalformedPointError("Invalid value for secexp, expected integer between 1 and %d" % N)
+        _mraise(MalformedPointError("Invalid value for secexp, expected integer between 1 and %d" % N))
     if b is None:
         b = k.to_bytes(32, "big")
     if isinstance(k, SxInt):
@@ -491,14 +529,17 @@ def _vk_from_string(cls, string, curve=None, hashfunc=None, validate_point=True,
     _log("vk_from_string", b)
     if isinstance(b, bytes):
         raise Unsupported("concrete SEC bytes in the group model")
+    d0 = _sec_provenance(b)
+    if d0 is not None:
+        return ModelVK(d0)
     L = len(b)
     if L == 33:
         p = b[0]
         if not bool((p == 2) | (p == 3) if not isinstance(p == 2, bool) or not isinstance(p == 3, bool) else (p in (2, 3))):
-            raise MalformedPointError("Malformed compressed point encoding")
+            _mraise(MalformedPointError("Malformed compressed point encoding"))
         e = b.bv()
         if not C().decide(_VALID(e)):
-            raise MalformedPointError("Encoding does not correspond to a point on curve")
+            _mraise(MalformedPointError("Encoding does not correspond to a point on curve"))
         d = _DLOG(e)
         c = C()
         c.add(z3.ULT(d, z3.BitVecVal(N, 256)), d != 0)
@@ -511,27 +552,27 @@ def _vk_from_string(cls, string, curve=None, hashfunc=None, validate_point=True,
             if not bool(p == 4):
                 if bool((p == 6) | (p == 7)):
                     raise Unsupported("hybrid SEC encoding")
-                raise MalformedPointError("Invalid X9.62 encoding of the public point")
+                _mraise(MalformedPointError("Invalid X9.62 encoding of the public point"))
             xy = b[1:].bv()
         else:
             xy = b.bv()
         if not C().decide(_VALIDU(xy)):
-            raise MalformedPointError("Point does not lay on the curve")
+            _mraise(MalformedPointError("Point does not lay on the curve"))
         d = _DLOGU(xy)
         c = C()
         c.add(z3.ULT(d, z3.BitVecVal(N, 256)), d != 0, z3.Concat(_X(d), _Y(d)) == xy)
         return ModelVK(SxInt.bv(z3.ZeroExt(1, d), 1, N - 1))
-    raise MalformedPointError("Length of string does not match lengths of any of the enabled encodings")
+    _mraise(MalformedPointError("Length of string does not match lengths of any of the enabled encodings"))
 
 
 def _vk_from_public_point(cls, point, curve=None, hashfunc=None, validate_point=True):
     _check_curve(curve)
     if _is_real_infinity(point):
-        raise TypeError("'<=' not supported between instances of 'int' and 'NoneType'")
+        _mraise(TypeError("'<=' not supported between instances of 'int' and 'NoneType'"))
     if not isinstance(point, ModelPoint):
         raise Unsupported("real ecdsa point in the group model")
     if bool(point.d == 0):
-        raise TypeError("'<=' not supported between instances of 'int' and 'NoneType'")
+        _mraise(TypeError("'<=' not supported between instances of 'int' and 'NoneType'"))
     return ModelVK(point.d)
 
 
@@ -560,12 +601,33 @@ class NativeOracle:
     symbolic = False
 
     def __init__(self, table=None):
+        self.remap = {}
+        self.seen_args = set()
         self.table = {}
         for kind, args, out in (table or []):
             self.table[(kind, tuple(args) if kind != "pbkdf2" else (args[0], args[1], args[2], args[3], args[4]))] = out
 
     def _t(self, kind, *args):
-        t = self.table.get((kind, tuple(bytes(a).hex() for a in args)))
+        key = (kind, tuple(bytes(a).hex() for a in args))
+        t = self.table.get(key)
+        if t is None and self.table:
+            # arguments that went through the group model (SEC bytes) differ natively: the i-th
+            # distinct argument tuple of a kind gets the i-th distinct table entry of that kind
+            # (keeps the substitution a function)
+            if key in self.remap:
+                t = self.remap[key]
+            else:
+                used = set(self.remap.values())
+                for (k2, a2), out in self.table.items():
+                    if k2 == kind and a2 not in self.seen_args and out not in used:
+                        self.seen_args.add(a2)
+                        self.remap[key] = out
+                        t = out
+                        break
+                else:
+                    self.remap[key] = None
+        else:
+            self.seen_args.add(key[1])
         return None if t is None else bytes.fromhex(t)
 
     def sha256(self, b):
